@@ -1,6 +1,8 @@
-/- Drivers for package `config`: stream `argv` (C10, model `ArgParse.argParse`). -/
+/- Drivers for package `config`: stream `argv` (C10, model `ArgParse.argParse`) and stream `config`
+   (C09, model `Config.newFlagSet` / `Config.parse`). -/
 import Glb.Driver.Common
 import Glb.Model.ArgParse
+import Glb.Model.Config
 
 namespace Glb.Driver.Config
 open Glb Glb.ArgParse
@@ -54,6 +56,147 @@ def argvStep (d : ArgvSt) : List String → ArgvSt × String
     match (if t == "@" then some d.tbl else parseTable t), toks.mapM ofHex? with
     | some tbl, some argv => (d, showResult tbl (argParse (tableLookup tbl) argv))
     | _, _ => (d, "bad-op")
+  | _ => (d, "bad-op")
+
+/-! ### stream `config`
+
+  The harness describes one case with several lines; everything the standard library computes is
+  supplied by the harness (it called strconv / time / base64 / encoding/json itself):
+
+    world                                reset all tables                                  → `ok`
+    case                                 forget env / file / b64 / json (keep the rest)     → `ok`
+    zero <kind> <valhex>                 `World.zero`                                      → `ok`
+    pt <kind> <texthex> <valhex|!>       `World.parseText kind text` (`!` = error)         → `ok`
+    newfs <field>*                       `newFlagSet`; field = `L <goNameHex> <kind> <tagHex>`
+                                         or `G <goNameHex> <n>` followed by n fields       → flag table
+    env <keyhex> <valhex>                one environment variable                          → `ok`
+    file <pathhex> <datahex|!>           `World.readFile`                                  → `ok`
+    b64 <texthex> <datahex|!>            `World.b64Decode`                                 → `ok`
+    json <datahex> <overlay|!>           `World.unmarshal`; overlay = `-` or `i=valhex,…`  → `ok`
+    run <tokhex>*                        `parse` on the flag set of the last `newfs`       → result
+
+  flag table: `ok name:env:kind:val:usage,…` (all hex) or `err:nameDash:<hex>` / `err:nameEq:<hex>` /
+  `err:redefined:<hex>` / `err:badDefault`.
+  result: `ok vals=[valhex,…] rest=[tokhex,…]`, `err:arg:<class>:<hex>`, `err:carrier`, `err:badValue`. -/
+
+open Glb.Config in
+structure CfgSt where
+  zeros : List (Nat × Bytes) := []
+  pts : List (Nat × Bytes × Option Bytes) := []
+  envs : List (Bytes × Bytes) := []
+  files : List (Bytes × Option Bytes) := []
+  b64s : List (Bytes × Option Bytes) := []
+  jsons : List (Bytes × Option (List (Nat × Bytes))) := []
+  flags : List Flag := []
+
+open Glb.Config
+
+def kindOfNat : Nat → Option Kind
+  | 0 => some .bool | 1 => some .int | 2 => some .int64 | 3 => some .uint | 4 => some .uint64
+  | 5 => some .string | 6 => some .float64 | 7 => some .duration | 8 => some .bytes | _ => none
+
+def natOfKind : Kind → Nat
+  | .bool => 0 | .int => 1 | .int64 => 2 | .uint => 3 | .uint64 => 4
+  | .string => 5 | .float64 => 6 | .duration => 7 | .bytes => 8
+
+def asciiLower (b : Bytes) : Bytes := b.map fun c => if isUpper c then c + 0x20 else c
+
+def assoc? {β} (l : List (Bytes × β)) (k : Bytes) : Option β := (l.find? (·.1 = k)).map (·.2)
+
+def worldOf (d : CfgSt) : World where
+  parseText := fun k t =>
+    ((d.pts.find? fun e => e.1 = natOfKind k ∧ e.2.1 = t).map (·.2.2)).getD none
+  zero := fun k => ((d.zeros.find? (·.1 = natOfKind k)).map (·.2)).getD []
+  lower := asciiLower
+  readFile := fun p => (assoc? d.files p).getD none
+  b64Decode := fun t => (assoc? d.b64s t).getD none
+  unmarshal := fun j => (assoc? d.jsons j).getD none
+
+def optHex (s : String) : Option (Option Bytes) :=
+  if s == "!" then some none else (ofHex? s).map some
+
+/-- parse `n` fields from the token list -/
+partial def parseFields : Nat → List String → Option (List Field × List String)
+  | 0, toks => some ([], toks)
+  | n + 1, "L" :: g :: k :: t :: rest => do
+    let g ← ofHex? g
+    let k ← k.toNat? >>= kindOfNat
+    let t ← ofHex? t
+    let (fs, rest) ← parseFields n rest
+    pure (.leaf g k t :: fs, rest)
+  | n + 1, "G" :: g :: c :: rest => do
+    let g ← ofHex? g
+    let c ← c.toNat?
+    let (inner, rest) ← parseFields c rest
+    let (fs, rest) ← parseFields n rest
+    pure (.group g inner :: fs, rest)
+  | _, _ => none
+
+/-- all top-level fields until the tokens run out -/
+partial def parseAllFields (toks : List String) : Option (List Field) :=
+  if toks.isEmpty then some [] else do
+    let (f, rest) ← parseFields 1 toks
+    let fs ← parseAllFields rest
+    pure (f ++ fs)
+
+def parseOverlay (s : String) : Option (Option (List (Nat × Bytes))) :=
+  if s == "!" then some none
+  else if s == "-" then some (some [])
+  else ((s.splitOn ",").mapM fun (e : String) =>
+    match e.splitOn "=" with
+    | [i, v] => do
+      let i ← String.toNat? i
+      let v ← ofHex? v
+      pure (i, v)
+    | _ => none).map some
+
+def showFlag (f : Flag) : String :=
+  s!"{toHex f.name}:{toHex f.env}:{natOfKind f.kind}:{toHex f.val}:{toHex f.usage}"
+
+def showNewErr : NewErr → String
+  | .panic p => p.describe
+  | .nameDash n => "err:nameDash:" ++ toHex n
+  | .nameEq n => "err:nameEq:" ++ toHex n
+  | .redefined n => "err:redefined:" ++ toHex n
+  | .badDefault _ => "err:badDefault"
+
+def showParse : Except ParseErr PSt → String
+  | .ok s => s!"ok vals=[{joinWith "," (s.flags.map fun f => toHex f.val)}] rest=[{joinWith "," (s.args.map toHex)}]"
+  | .error (.panic p) => "err:" ++ p.describe
+  | .error (.arg e) => "err:arg:" ++ (showErr e).drop 4
+  | .error .carrier => "err:carrier"
+  | .error (.badValue _) => "err:badValue"
+  | .error .unknownStep => "err:unknownStep"
+
+def cfgStep (d : CfgSt) : List String → CfgSt × String
+  | ["world"] => ({}, "ok")
+  | ["case"] => ({ d with envs := [], files := [], b64s := [], jsons := [] }, "ok")
+  | ["zero", k, v] => match k.toNat?, ofHex? v with
+    | some k, some v => ({ d with zeros := (k, v) :: d.zeros }, "ok")
+    | _, _ => (d, "bad-op")
+  | ["pt", k, t, v] => match k.toNat?, ofHex? t, optHex v with
+    | some k, some t, some v => ({ d with pts := (k, t, v) :: d.pts }, "ok")
+    | _, _, _ => (d, "bad-op")
+  | "newfs" :: toks => match parseAllFields toks with
+    | none => (d, "bad-op")
+    | some fields => match newFlagSet (worldOf d) fields with
+      | .error e => ({ d with flags := [] }, showNewErr e)
+      | .ok fl => ({ d with flags := fl }, "ok " ++ joinWith "," (fl.map showFlag))
+  | ["env", k, v] => match ofHex? k, ofHex? v with
+    | some k, some v => ({ d with envs := (k, v) :: d.envs }, "ok")
+    | _, _ => (d, "bad-op")
+  | ["file", p, v] => match ofHex? p, optHex v with
+    | some p, some v => ({ d with files := (p, v) :: d.files }, "ok")
+    | _, _ => (d, "bad-op")
+  | ["b64", t, v] => match ofHex? t, optHex v with
+    | some t, some v => ({ d with b64s := (t, v) :: d.b64s }, "ok")
+    | _, _ => (d, "bad-op")
+  | ["json", j, o] => match ofHex? j, parseOverlay o with
+    | some j, some o => ({ d with jsons := (j, o) :: d.jsons }, "ok")
+    | _, _ => (d, "bad-op")
+  | "run" :: toks => match toks.mapM ofHex? with
+    | none => (d, "bad-op")
+    | some argv => (d, showParse (parse (worldOf d) d.flags argv (assoc? d.envs)))
   | _ => (d, "bad-op")
 
 end Glb.Driver.Config
